@@ -11,7 +11,7 @@ overlapping paths) and never occur in the opposite order. The pairs of the revie
 (ctpgsa/golden/dep_<name>.json); a check recomputes them:
    frozen (a, b), both operations still exist, and the tree has (b, a) but not (a, b)  -> violation (order reversed)
    operation texts that no longer exist                                                 -> the pair is skipped
-   fewer than half of a function's frozen pairs can be matched                          -> unknown shape: exit 2
+   fewer than a quarter of a function's frozen pairs can be matched                     -> unknown shape: exit 2
 Reordering independent statements, renaming, introducing or removing temporaries does not create or reverse a pair.
 """
 import json
@@ -204,24 +204,7 @@ class RW:
         if not usable:
             return
         Rg, Wg = summary(g, self.depth + 1, self.stack + (cn.fn.o["id"],))
-        argtxt = [cn.c(a) for a in args]
-        objtxt = cn.c(obj) if obj is not None else ""
-        member_call = k == "CXXMemberCallExpr" or obj is not None
-
-        def back(p):
-            m = re.match(r"(\*?)\$(\d+)(.*)", p)
-            if m:
-                star, i, rest = m.group(1), int(m.group(2)), m.group(3)
-                if i >= len(argtxt) or i >= len(g.o["params"]):
-                    return None
-                if not g.o["params"][i].get("ref") and not star:
-                    return None          # the callee's own copy
-                return star + argtxt[i] + rest
-            if p.startswith("?") or p.startswith("*?") or p.startswith("@"):
-                return None
-            if member_call and objtxt not in ("", "this"):
-                return objtxt + "." + p
-            return p
+        back = _back_mapper(g, [cn.c(a) for a in args], cn.c(obj) if obj is not None else "")
         for p in Rg:
             q = back(p)
             if q:
@@ -230,6 +213,25 @@ class RW:
             q = back(p)
             if q:
                 self.W.add(_norm_callee_path(q))
+
+
+def _back_mapper(g, argtxt, objtxt):
+    """Maps an access path in the callee's canonical terms to the caller's (None: not visible to the caller)."""
+    def back(p):
+        m = re.match(r"(\*?)\$(\d+)(.*)", p)
+        if m:
+            star, i, rest = m.group(1), int(m.group(2)), m.group(3)
+            if i >= len(argtxt) or i >= len(g.o["params"]):
+                return None
+            if not g.o["params"][i].get("ref") and not star:
+                return None          # the callee's own copy
+            return star + argtxt[i] + rest
+        if p.startswith("?") or p.startswith("*?") or p.startswith("@"):
+            return None
+        if objtxt not in ("", "this"):
+            return objtxt + "." + p
+        return p
+    return back
 
 
 def summary(g, depth, stack):
@@ -252,9 +254,10 @@ def summary(g, depth, stack):
     return _SUMMARY[key]
 
 
-def _statements(body):
+def _statements(body, tagged=False):
     """Statement-level nodes (expressions statements, declarations, conditions, returns) of a body."""
     out = []
+    conds = set()
 
     def rec(s):
         if s is None:
@@ -270,14 +273,17 @@ def _statements(body):
                     rec(s.get(s["taken"]))
                 return
             out.append(s.get("cond"))
+            conds.add(id(s.get("cond")))
             rec(s.get("then"))
             rec(s.get("else"))
         elif k in ("WhileStmt", "DoStmt"):
             out.append(s.get("cond"))
+            conds.add(id(s.get("cond")))
             rec(s.get("body"))
         elif k == "ForStmt":
             rec(s.get("init"))
             out.append(s.get("cond"))
+            conds.add(id(s.get("cond")))
             out.append(s.get("inc"))
             rec(s.get("body"))
         elif k == "CXXForRangeStmt":
@@ -288,7 +294,59 @@ def _statements(body):
         else:
             out.append(s)
     rec(body)
+    if tagged:
+        return [("cond" if id(x) in conds else "stmt", x) for x in out if x is not None]
     return [x for x in out if x is not None]
+
+
+_HELPER_OPS = {}
+
+
+def _helper_ops(f, lab, cn, node):
+    """Operations of the same-class helper functions called (on this object) inside `node`, in the caller's terms:
+    extracting statements into a private helper, or inlining one, leaves the sequence of operations as it was."""
+    out = []
+    from .pathsig import _subst
+    for n in walk(node):
+        if n.get("k") != "CXXMemberCallExpr":
+            continue
+        c = n.get("callee") or {}
+        if c.get("f") != "ctpg" or c.get("parent") != f.o.get("parent"):
+            continue
+        g = f.facts.by_id.get(c.get("id"))
+        if g is None or g.body is None or g is f:
+            continue
+        obj = A.call_object(n)
+        if obj is not None and lab.c(obj) not in ("", "this"):
+            continue
+        key = (id(g.facts), g.o["id"])
+        if key not in _HELPER_OPS:
+            lab_g = Canon(g, uniform=True)
+            cn_g = Canon(g, uniform=True, noinline=True)
+            raw = []
+            for kind, st in _statements(g.body, tagged=True):
+                rw = RW(cn_g, 1, (f.o["id"],))
+                rw.visit(st, "r")
+                sn = strip(st, casts=True)
+                if kind == "cond":
+                    text = "test " + lab_g.c(st)
+                elif sn is not None and sn.get("k") == "ReturnStmt":
+                    continue          # the value travels through the call expression of the caller
+                else:
+                    text = _label(lab_g, st)
+                raw.append((text, frozenset(rw.R), frozenset(rw.W)))
+            _HELPER_OPS[key] = raw
+        args = A.call_args(n)
+        lab_args = [lab.c(a) for a in args]
+        back = _back_mapper(g, [cn.c(a) for a in args], "")
+        import zlib
+        hid = 9000 + 10 * (zlib.crc32(g.o["n"].encode()) % 97)      # stable across trees: by the helper's name
+        ren = lambda t: re.sub(r"\?v(\d+)", lambda m: "?v%d" % (hid + int(m.group(1))), t)
+        for text, R, W in _HELPER_OPS[key]:
+            R2 = {_norm_callee_path(q) for q in (back(p) for p in R) if q}
+            W2 = {_norm_callee_path(q) for q in (back(p) for p in W) if q}
+            out.append((ren(_subst(text, lab_args)), frozenset(R2), frozenset(W2)))
+    return out
 
 
 def operations(f):
@@ -318,6 +376,10 @@ def operations(f):
                     text = _label(lab, node)
                 cache[key] = (text, frozenset(rw.R), frozenset(rw.W))
             text, R, W = cache[key]
+            hkey = ("h", key)
+            if hkey not in cache:
+                cache[hkey] = _helper_ops(f, lab, cn, node if e[0] != "return" else node.get("value"))
+            ops.extend(cache[hkey])
             # a statement that uses a temporary depends on what the temporary was computed from, as long as none of
             # that was written in between (then `auto t = e; use(t)` and `use(e)` order alike)
             R2 = set(R)
@@ -440,7 +502,7 @@ def check(chk, fx, rule, name):
             chk.violation(rule, site, "%s:%s:%s" % (rule, f.o["n"], _short(a, b)),
                           "in %s the operation '%s' must come before '%s' (%s dependence on %s); in the code the order "
                           "is reversed" % (f.o["n"], a[:120], b[:120], kind, _shared(f, a, b)))
-    if stable and matched * 2 < stable:
+    if stable and matched * 4 < stable:
         chk.defer_incomplete("%s: only %d of the %d frozen dependences of %s can be matched to the code (unknown shape)" % (
             rule, matched, stable, f.o["n"]))
     return f
